@@ -111,3 +111,80 @@ Theorem C01_match_compile_correct_full_refuted :
   exists rows vs, translate (S (rows_size rows)) None vs rows <> Some (first_row rows vs).
 Proof. exact match_compile_correct_full_refuted. Qed.
 Print Assumptions C01_match_compile_correct_full_refuted.
+
+(* Model VM on gluon's real bytecode (VM/Machine.v, semantics of vm/src/thread.rs). *)
+From GVgen Require Import InstrGen.
+From GV Require Import VM.Machine VM.MachineProofs.
+
+(* A finished run of the model VM is independent of extra fuel. *)
+Theorem C01_vm_fuel_mono : forall prog n m s r l,
+  run prog n s = (r, l) -> r <> VOutOfFuel -> n <= m -> run prog m s = (r, l).
+Proof. exact vm_fuel_mono. Qed.
+Print Assumptions C01_vm_fuel_mono.
+
+(* Return (no excess arguments), for any callee code that reaches it: the callee slot and the
+   callee's whole frame are replaced by exactly one value, the result, directly above the
+   caller's values; the caller's frame (offset, instruction index, upvariables) is restored
+   untouched; store and log unchanged. *)
+Theorem C01_vm_frame_discipline : forall prog base fnval locals result f caller rest store log fn,
+  get_fn prog (fr_fn f) = Some fn ->
+  nth_error (fn_code fn) (fr_pc f) = Some IReturn ->
+  fr_excess f = false ->
+  fr_off f = S (length base) ->
+  step prog {| st_stack := base ++ fnval :: locals ++ [result]; st_frames := f :: caller :: rest;
+               st_store := store; st_log := log; st_pending := None |}
+  = Next {| st_stack := base ++ [result]; st_frames := caller :: rest;
+            st_store := store; st_log := log; st_pending := None |}.
+Proof. exact vm_return_frame_discipline. Qed.
+Print Assumptions C01_vm_frame_discipline.
+
+(* Return of a frame entered with excess arguments: the excess record is consumed and the
+   result is about to be applied to exactly those arguments. *)
+Theorem C01_vm_return_excess_reapplies : forall prog base tag names fields fnval locals result f caller rest store log fn,
+  get_fn prog (fr_fn f) = Some fn ->
+  nth_error (fn_code fn) (fr_pc f) = Some IReturn ->
+  fr_excess f = true ->
+  fr_off f = S (S (length base)) ->
+  step prog {| st_stack := base ++ MData tag names fields :: fnval :: locals ++ [result];
+               st_frames := f :: caller :: rest; st_store := store; st_log := log; st_pending := None |}
+  = Next {| st_stack := base ++ [result] ++ fields; st_frames := caller :: rest;
+            st_store := store; st_log := log; st_pending := Some (length fields) |}.
+Proof. exact vm_return_excess_reapplies. Qed.
+Print Assumptions C01_vm_return_excess_reapplies.
+
+(* Call n on a closure of arity n opens a frame at the first argument, instruction 0. *)
+Theorem C01_vm_call_exact_enters_frame : forall prog base g up args f rest store log fn callee n,
+  get_fn prog (fr_fn f) = Some fn ->
+  nth_error (fn_code fn) (fr_pc f) = Some (ICall n) ->
+  N.to_nat n = length args ->
+  get_fn prog g = Some callee -> fn_args callee = length args ->
+  step prog {| st_stack := base ++ MClo g up :: args; st_frames := f :: rest;
+               st_store := store; st_log := log; st_pending := None |}
+  = Next {| st_stack := base ++ MClo g up :: args;
+            st_frames := {| fr_off := S (length base); fr_excess := false; fr_fn := g; fr_upv := up; fr_pc := 0 |}
+                         :: {| fr_off := fr_off f; fr_excess := fr_excess f; fr_fn := fr_fn f; fr_upv := fr_upv f; fr_pc := S (fr_pc f) |}
+                         :: rest;
+            st_store := store; st_log := log; st_pending := None |}.
+Proof. exact vm_call_exact_enters_frame. Qed.
+Print Assumptions C01_vm_call_exact_enters_frame.
+
+(* `TailCall n` instead of `Call n; Return` reaches the same machine state — partial: for a callee
+   that needs no frame (a built-in applied to exactly its arity). *)
+Theorem C01_tailcall_preserves_result_partial :
+  forall prog base fnval locals e args r log' f caller rest store log fn1 fn2 f2 n,
+  get_fn prog (fr_fn f) = Some fn1 -> nth_error (fn_code fn1) (fr_pc f) = Some (ITailCall n) ->
+  fr_off f2 = fr_off f -> fr_excess f2 = false -> fr_excess f = false -> fr_pc f2 = fr_pc f ->
+  get_fn prog (fr_fn f2) = Some fn2 -> nth_error (fn_code fn2) (fr_pc f) = Some (ICall n) ->
+  nth_error (fn_code fn2) (S (fr_pc f)) = Some IReturn ->
+  N.to_nat n = length args -> ext_arity e = length args ->
+  run_ext e args log = (Some (inl r), log') ->
+  fr_off f = S (length base) ->
+  let stack := base ++ fnval :: locals ++ MExt e :: args in
+  let s1 := {| st_stack := stack; st_frames := f :: caller :: rest; st_store := store; st_log := log; st_pending := None |} in
+  let s2 := {| st_stack := stack; st_frames := f2 :: caller :: rest; st_store := store; st_log := log; st_pending := None |} in
+  exists final,
+    final = {| st_stack := base ++ [r]; st_frames := caller :: rest; st_store := store; st_log := log'; st_pending := None |}
+    /\ step prog s1 = Next final
+    /\ (exists mid, step prog s2 = Next mid /\ step prog mid = Next final).
+Proof. exact tailcall_preserves_result_partial. Qed.
+Print Assumptions C01_tailcall_preserves_result_partial.
